@@ -1,2 +1,3 @@
 pub mod builder;
+pub mod inl;
 pub mod mpc;
